@@ -263,6 +263,40 @@ func genNilFamily(r *rng) (na, nb *node, note string, equal bool) {
 	return na, nb, note, equal
 }
 
+// genNeighbourFamily: two leaves of one kind whose values are immediate neighbours where a lossy comparison
+// (through float64, a narrower integer, a hash, a prefix) cannot tell them apart - 2^53 and 2^53+1, MaxInt64-1
+// and MaxInt64, MinInt64 and MinInt64+1, adjacent floats, a string and the string plus one NUL byte - alone or
+// as the single differing leaf of otherwise equal containers.  Both questions are asked of every such pair
+// (a ranking that merges them while the comparison does not is a disagreement of the two).
+func genNeighbourFamily(r *rng) (na, nb *node, note string, equal bool) {
+	kind := []string{"int", "int64", "int64", "uint", "uint64", "float64", "string", "int16", "rune"}[r.intn(9)]
+	var x *node
+	for try := 0; try < 20; try++ {
+		x = genLeaf(r, kind, false)
+		big := true
+		switch v := x.prim.(type) {
+		case int64:
+			big = kind == "int16" || kind == "rune" || v >= 1<<53 || v <= -(1<<53)
+		case uint64:
+			big = v >= 1<<53
+		}
+		if big || r.chance(1, 4) {
+			break
+		}
+	}
+	y := neighbourLeaf(r, x)
+	if y == nil || sameLeaf(x, y) {
+		return x, cloneNode(x), "neighbour:copy:" + kind, true
+	}
+	na, nb, note = x, y, "neighbour:"+kind
+	for lvl := 0; lvl < 2 && r.chance(1, 2); lvl++ {
+		var w string
+		na, nb, w = wrapPair(r, na, nb)
+		note += " in " + w
+	}
+	return na, nb, note, false
+}
+
 // nilFamilyPredicates evaluates the property's statements on the four observed answers for a pair whose
 // equality the generator knows.  Answers that are panics (depth limit) are left to the correspondence.
 func nilFamilyPredicates(note string, equal bool, rankAB, rankBA, cmpAB, cmpBA string) []string {
